@@ -88,7 +88,7 @@ def lift_rule(f):
     return d
 
 
-def run(ck):
+def _run_own(ck):
     facts = ck.facts
     ck.decided('D1 gate set: every gate constructed in code reachable from Extractor::extract (including the RowOps-for-Circuit callbacks) has a constant kind in {H, ZPhase, CZ, CNOT, SWAP} — this clause of the statement is decided completely',
                'D2 row operations are mirrored: each m.add_row(i,t) is followed by c1.add_row(i,t) with identical operands, the matrix written back is that same m, every proxy circuit is consumed into the output circuit on every path, update_frontier_circuit lifts both operands and keeps the order',
@@ -240,3 +240,8 @@ def run(ck):
     fx = fixture()
     em2, _r = emitted(fx, ['extract::emit_bad'])
     ck.control('R-EMIT flags a gate outside the basic set', any(k not in G.EXTRACT_SET for _f, k, _n in em2))
+
+
+def run(ck, **kw):
+    _run_own(ck)
+    ck.include('C01', 'the optimiser simplifies the diagram before extracting: an unsound rule application or inline matcher in simplify.rs yields a circuit for a different unitary', parts=['D1', 'D2'])
